@@ -57,6 +57,11 @@ def _merge_stubs_overloads(obj: Module | Class, stubs: Module | Class) -> None:
 
 
 def _merge_stubs_members(obj: Module | Class, stubs: Module | Class) -> None:
+    # When the object is reached through an alias, work on its target:
+    # the members of an alias are recreated on each access, so members set on it would be lost.
+    if obj.is_alias:
+        obj = obj.final_target  # type: ignore[union-attr]
+
     # Merge imports to later know if objects coming from the stubs were imported.
     obj.imports.update(stubs.imports)
 
